@@ -428,23 +428,45 @@ func TestC05(t *testing.T) {
 			stream = append(stream, m...)
 		}
 		cuts := randCuts(c, len(stream))
+		// how the stream ends: 0 the end is signalled after the reader drained the bytes;
+		// 1 the Read that returns the final bytes also returns io.EOF (n > 0 with an error, as
+		// io.Reader allows and crypto/tls does); 2 the same with a read error; 3 everything is
+		// queued before the reader starts, EOF on a Read of its own
+		ending := (c.I / 8) % 4
+		notify := (c.I/32)%2 == 1 // the first handler invocation arms CloseNotify (reads go through the pipe)
 		c.Class("conn/msgs=%d/frags=%d", nm, min(len(cuts)+1, 20))
+		c.Class("conn/ending=%d/close-notify=%v", ending, notify)
 		mc := memnet.NewConn()
 		var mu sync.Mutex
 		var got [][]byte
-		h := diam.HandlerFunc(func(_ diam.Conn, m *diam.Message) {
+		var cn <-chan struct{}
+		h := diam.HandlerFunc(func(dc diam.Conn, m *diam.Message) {
 			b, _ := m.Serialize()
 			mu.Lock()
 			got = append(got, b)
+			if notify && cn == nil {
+				cn = dc.(diam.CloseNotifier).CloseNotify()
+			}
 			mu.Unlock()
 		})
+		if ending != 0 {
+			mc.ErrWithData = ending != 3
+			mc.FeedSplit(stream, cuts)
+			if ending == 2 {
+				mc.FeedErr(errors.New("memnet: connection reset"))
+			} else {
+				mc.FeedEOF()
+			}
+		}
 		_, err := diam.NewConn(mc, "peer", h, ctx.Parser)
 		if err != nil {
 			c.Fail(ev.Sig{"op": "setup"}, nil, nil, "NewConn: %v", err)
 			return
 		}
-		mc.FeedSplit(stream, cuts)
-		mc.FeedEOF()
+		if ending == 0 {
+			mc.FeedSplit(stream, cuts)
+			mc.FeedEOF()
+		}
 		select {
 		case <-mc.Closed():
 		case <-time.After(60 * time.Second):
@@ -454,7 +476,7 @@ func TestC05(t *testing.T) {
 		mu.Lock()
 		defer mu.Unlock()
 		if d := cmpSeq(got, msgs); d != "" {
-			c.Fail(ev.Sig{"op": "sequence", "how": "conn"}, stream, nil, "through a connection: %s; cuts %v", d, short(cuts))
+			c.Fail(ev.Sig{"op": "sequence", "how": "conn", "ending": ending}, stream, nil, "through a connection (ending %d, CloseNotify armed %v): %s; cuts %v", ending, notify, d, short(cuts))
 			return
 		}
 		c.Event("conn_streams", 1)
